@@ -289,7 +289,7 @@ func main() {
 			for idx := b.From; idx < b.To; idx++ {
 				rng := c.Rand(idx)
 				w := mfs.DefaultWeights()
-				cfg := mfs.GenCfg{Names: []string{"a", "b", "c"}, MaxDepth: 3, Spell: true, Views: idx%2 == 0, ViewOnlyOnDirs: true,
+				cfg := mfs.GenCfg{Names: namePool(idx), MaxDepth: 3, Spell: true, Views: idx%2 == 0, ViewOnlyOnDirs: true,
 					PrecondBias: 0.9, Weights: w, BigData: idx%9 == 0, NoDestInsideSrc: true}
 				gen := &mfs.Gen{Cfg: cfg, R: rng}
 				conf := cfgT{memChild: idx%4 == 1 || idx%4 == 2, diskChild: idx%4 == 1 || idx%4 == 3}
@@ -320,4 +320,13 @@ func main() {
 			return ""
 		},
 	})
+}
+
+// namePool: every third history uses names one of which is a string prefix of another ("a" /
+// "ab"): code that compares paths as strings instead of element by element confuses them.
+func namePool(idx int) []string {
+	if idx%3 == 1 {
+		return []string{"a", "ab", "b"}
+	}
+	return []string{"a", "b", "c"}
 }
